@@ -449,7 +449,36 @@ func Rand14(r *rand.Rand) Row {
 	b := realEncoding(kind, v)
 	note := "valid"
 	if len(b) > 0 {
-		switch r.Intn(7) {
+		switch r.Intn(9) {
+		case 7, 8:
+			// a length-delimited field (known or unknown tag) whose length varint sits at an integer boundary: 2^31, 2^32, and the window
+			// just below 2^63 where index arithmetic wraps negative
+			p := r.Intn(len(b) + 1)
+			tag := []byte{0x12, 0x1a, 0x22, 0x2a, 0x0a, 0x32, 0x3a, 0x7a, 0x42, 0xfa}[r.Intn(10)]
+			var l uint64
+			switch r.Intn(6) {
+			case 0:
+				l = 1<<31 - 1 + uint64(r.Intn(3))
+			case 1:
+				l = 1<<32 - 1 + uint64(r.Intn(3))
+			case 2, 3:
+				l = 1<<63 - 1 - uint64(r.Intn(p+20))
+			case 4:
+				l = 1<<63 + uint64(r.Intn(4))
+			default:
+				l = ^uint64(0) - uint64(r.Intn(4))
+			}
+			nb := append([]byte{}, b[:p]...)
+			nb = append(nb, tag)
+			if tag == 0xfa {
+				nb = append(nb, 0x01)
+			}
+			for l >= 0x80 {
+				nb = append(nb, byte(l)|0x80)
+				l >>= 7
+			}
+			nb = append(nb, byte(l))
+			b, note = append(nb, randBytes(r, r.Intn(3))...), "boundary length varint"
 		case 0:
 			b, note = b[:r.Intn(len(b))], "truncated"
 		case 1, 2:
